@@ -39,6 +39,7 @@ func execAtomic(rep *base.Report, prop string, specs []*spec.Spec, mk func(c inj
 		out.Races = append(out.Races, res.Races...)
 		out.Crashes = append(out.Crashes, res.Crashes...)
 		for _, sc := range scs {
+			rep.Count("entries_by_goroutines_of_an_earlier_call_(dropped)", dropForeignEntries(byID[sc.ID], &sc, res.Outcomes[sc.ID]))
 			out.Results = append(out.Results, ffResult{Case: byID[sc.ID], Sc: sc, Out: res.Outcomes[sc.ID]})
 		}
 		rep.Count("runner_children", res.Children)
